@@ -13,8 +13,20 @@ Theorem cellcycle_model_is_what_the_source_says : (cellcycle_translation_ok = tr
   (forall (T : Type) (N : Num T) (dt g minvol vt : T), update_target_volume_gen N dt g minvol vt = update_target_volume N dt g minvol vt) /\
   (forall (T : Type) (N : Num T) (L : Libm T) (K pmax V vt : T), update_pressure_gen N L K pmax V vt = update_pressure N L K pmax V vt) /\
   (forall (T : Type) (N : Num T) (V minvol : T), is_below_gen N V minvol = is_below N V minvol) /\
-  (forall (T : Type) (N : Num T) (V vdiv : T), epithelial_is_ready_gen N V vdiv = is_ready N 0%Z V vdiv).
-Proof. repeat split; intros; reflexivity. Qed.
+  (forall (T : Type) (N : Num T) (V vdiv : T), epithelial_is_ready_gen N V vdiv = is_ready N 0%Z V vdiv) /\
+  (* initialize_random_properties: a value is drawn iff the standard deviation is not zero (and, for the division volume, the mean is
+     finite) and is then capped at three standard deviations; the solver's initial target volume.  The source tests `std != 0`
+     where the model tests `std == 0` with the branches exchanged: equal by cases on the test, not by reflexivity. *)
+  (forall (T : Type) (N : Num T) (avg sd raw : T) (inf_ : bool),
+     growth_of_gen N avg sd raw = growth_of N avg sd raw /\
+     divvol_of_gen N inf_ avg sd raw = divvol_of N inf_ avg sd raw) /\
+  (forall (T : Type) (N : Num T) (L : Libm T) (V p0 K : T), initial_target_gen N L V p0 K = initial_target N L V p0 K).
+Proof.
+  split; [reflexivity|]. split; [intros; reflexivity|]. split; [intros; reflexivity|]. split; [intros; reflexivity|].
+  split; [intros; reflexivity|]. split; [|intros; reflexivity].
+  intros T N avg sd raw inf_. unfold growth_of_gen, divvol_of_gen, growth_of, divvol_of, clamp3, three.
+  destruct (neqb N sd (nzero N)); destruct inf_; split; reflexivity.
+Qed.
 Print Assumptions cellcycle_model_is_what_the_source_says.
 
 (* the target volume increases by growth_rate*dt per iteration and never drops below the type's minimum volume *)
